@@ -13,6 +13,7 @@
 #include <kit/simstop.hpp>
 
 #include <unifex/get_allocator.hpp>
+#include <unifex/continuations.hpp>
 #include <unifex/get_stop_token.hpp>
 #include <unifex/inline_scheduler.hpp>
 #include <unifex/inplace_stop_token.hpp>
@@ -166,6 +167,7 @@ struct rcv_iface {
   virtual sim_sched q_scheduler() noexcept = 0;
   virtual int q_allocator() noexcept = 0;
   virtual long q_tag() noexcept = 0;
+  virtual unifex::continuation_info q_continuation() noexcept = 0;  // the receiver this erasure point forwards to (async_trace chain)
 
 protected:
   ~rcv_iface() = default;
@@ -187,6 +189,12 @@ struct bridge {
   friend sim_sched tag_invoke(unifex::tag_t<unifex::get_scheduler>, const bridge& b) noexcept { return b.r->q_scheduler(); }
   friend sim_allocator<std::byte> tag_invoke(unifex::tag_t<unifex::get_allocator>, const bridge& b) noexcept { return sim_allocator<std::byte>{b.r->q_allocator()}; }
   friend long tag_invoke(get_tag_fn, const bridge& b) noexcept { return b.r->q_tag(); }
+#if UNIFEX_ENABLE_CONTINUATION_VISITATIONS
+  template <class F>
+  friend void tag_invoke(unifex::tag_t<unifex::visit_continuations>, const bridge& b, F&& f) {
+    std::invoke(f, b.r->q_continuation());
+  }
+#endif
 };
 
 struct op_base {
@@ -376,6 +384,7 @@ struct any_op final : rcv_iface {
     else return unifex::get_allocator(std::as_const(r)).id;
   }
   long q_tag() noexcept override { return get_tag(std::as_const(r)); }
+  unifex::continuation_info q_continuation() noexcept override { return unifex::continuation_info::from_continuation(std::as_const(r)); }
 };
 
 // a node built from a factory that creates the (typed) library expression afresh on every connect
